@@ -79,7 +79,7 @@ example :
     stores), and a refused `<band>` still leaves assigned iterators behind (the handler goes on after `error()`) -/
 example :
     let evs := toCovMat ++ leaf "dim" "2" ++ leaf "band" "5" ++ leaf "flt" "1"
-    (run St.init evs).err = some (22, .e_bad_dimension_or_bandwidth_of_covariance) ∧
+    (run St.init evs).err = some (36, .e_bad_dimension_or_bandwidth_of_covariance) ∧
     (run St.init evs).uninitStore = false ∧ (run St.init evs).iterI = some 0 ∧ (run St.init evs).iterE = some 0 := by
   decide
 
